@@ -215,6 +215,8 @@ struct Node {
 
 #[derive(Clone, Debug)]
 pub struct Violation {
+    /// catalogue item (delivered frame) the violation was observed on, if any
+    pub item: Option<u64>,
     pub property: String,
     /// stable identity of *what* fails (entry point / fault class / field path): used to
     /// match known findings and to keep the violation class fixed while minimising
@@ -243,6 +245,11 @@ pub struct Cx {
     pub preemptions_done: u32,
     pub restarts: u32,
     pub nodes_spawned: u32,
+    /// catalogue items: every faulted frame a scenario delivers gets a number; a replay may
+    /// focus on one of them (all other items are skipped, the fault-free session still runs)
+    pub item_counter: u64,
+    pub focus: Option<u64>,
+    pub cur_item: Option<u64>,
 }
 
 impl Cx {
@@ -266,6 +273,9 @@ impl Cx {
             preemptions_done: 0,
             restarts: 0,
             nodes_spawned: 0,
+            item_counter: 0,
+            focus: None,
+            cur_item: None,
         }
     }
 
@@ -301,7 +311,16 @@ impl Cx {
     }
     pub fn violation(&mut self, property: &str, key: String, detail: String) {
         self.log(format!("VIOLATION {property} {key} :: {detail}"));
-        self.violations.push(Violation { property: property.to_string(), key, detail });
+        self.violations.push(Violation { item: self.cur_item, property: property.to_string(), key, detail });
+    }
+    /// Number the next catalogue item; None = skipped because the run is focused elsewhere.
+    pub fn item(&mut self) -> Option<u64> {
+        let id = self.item_counter;
+        self.item_counter += 1;
+        match self.focus {
+            Some(f) if f != id => None,
+            _ => Some(id),
+        }
     }
     pub fn log_hash(&self) -> String {
         hex(&self.hasher.clone().finalize()[..16])
